@@ -1,4 +1,5 @@
 import CCVerif.Model.Schema
+import CCVerif.Model.Thesaurus
 import Driver.Util
 /-! Driver ops for C07: the incremental-analysis model (as in /repo now) next to analysis from
 scratch of the same content (the specification). -/
@@ -7,6 +8,8 @@ open CCVerif.Schema Driver
 
 structure State where
   st : St := {}
+  /-- text layer (`Model/Thesaurus.lean` over the C17 resolver model) -/
+  th : CCVerif.Thesaurus.St CCVerif.Strings.Bytes CCVerif.Refs.Morph := CCVerif.Thesaurus.St.init CCVerif.Thesaurus.refsLang
 
 def parseDef (s : String) : Def :=
   if s == "-" then .empty
@@ -33,8 +36,58 @@ def parseMap (s : String) : List (String × String) :=
   if s == "-" then [] else
   (s.splitOn ",").filterMap fun p => match p.splitOn ">" with | [a, b] => some (a, b) | _ => none
 
+/-! text layer: `c07 t…` ops mirror `Thesaurus` histories; `c07 treport` prints every resolved term /
+definition of the model and, as the specification, those of the model's from-scratch rebuild
+(`n/a` when the term references of the content are cyclic) -/
+section TextLayer
+open CCVerif.Thesaurus
+
+abbrev TSt := CCVerif.Thesaurus.St CCVerif.Strings.Bytes CCVerif.Refs.Morph
+def TL := CCVerif.Thesaurus.refsLang
+
+def showTReport (st : TSt) : String :=
+  let items := (st.report TL).map fun (u, _, _, ts, _, ds) => s!"{u}:{toHex ts}|{toHex ds}"
+  let body := if items.isEmpty then "-" else joinWith "," items
+  if st.stuck then "stuck " ++ body else body
+
+def termsAcyclic (st : TSt) : Bool := !(CCVerif.Graph.hasLoop (st.ensureT TL).tGraph)
+
+def parseSubst (s : String) : List (String × String) :=
+  if s == "-" then [] else
+  (s.splitOn ",").filterMap fun p => match p.splitOn ">" with
+    | [a, b] => some (nameStr (parseHex a), nameStr (parseHex b)) | _ => none
+
+/-- the fixed manual form of the harness: {datv, plur} -/
+def harnessForm : CCVerif.Refs.Morph := CCVerif.Refs.morphOfText [100, 97, 116, 118, 44, 112, 108, 117, 114]
+
+def tstep (s : State) (args : List String) : Option (State × String) :=
+  let go (op : Op CCVerif.Strings.Bytes CCVerif.Refs.Morph) : Option (State × String) :=
+    some ({ s with th := CCVerif.Thesaurus.step TL s.th op }, "ok\tok")
+  match args with
+  | ["treset"] => some ({ s with th := St.init TL }, "ok\tok")
+  | ["tins", u, a, t, d] => go (.insert ⟨parseNat u, nameStr (parseHex a), parseHex t, [], parseHex d⟩)
+  | ["terase", u] => go (.erase (parseNat u))
+  | ["tset", u, t] => go (.setTerm (parseNat u) (parseHex t))
+  | ["dset", u, t] => go (.setDef (parseNat u) (parseHex t))
+  | ["tform", u, t] => go (.setTermForm (parseNat u) (parseHex t) harnessForm)
+  | ["talias", u, a, sb] => go (.setAlias (parseNat u) (nameStr (parseHex a)) (sb == "1"))
+  | ["tsubst", m] => go (.substitute (parseSubst m))
+  | ["ttr", u, m] => go (.translate (parseNat u) (parseSubst m))
+  | ["ttrt", u, m] => go (.translateTerm (parseNat u) (parseSubst m))
+  | ["ttrd", u, m] => go (.translateDef (parseNat u) (parseSubst m))
+  | ["ttrall", m] => go (.translateAll (parseSubst m))
+  | ["tupdate"] => go .updateState
+  | ["treport"] =>
+    let spec := if termsAcyclic (s.th.scratch TL) then showTReport (s.th.scratch TL) else "n/a"
+    some (s, s!"{showTReport s.th}\t{spec}")
+  | _ => none
+end TextLayer
+
 def step (s : State) (args : List String) : State × String :=
   let go (op : Op) : State × String := ({ st := CCVerif.Schema.step false s.st op }, "ok\tok")
+  match tstep s args with
+  | some r => r
+  | none =>
   match args with
   | ["reset"] => ({}, "ok\tok")
   | ["insert", u, a, k, d] => go (.insert { uid := parseNat u, alias := a, kind := kindOf k, defn := parseDef d })
